@@ -323,7 +323,9 @@ func c15Profiles(tier Tier) []*explore.Profile {
 		Menu: func(w *world.World) []world.Action {
 			acts := supplyMenu(w, o)
 			acts = append(acts, roleMenu(w, o, [][]byte{uni.F, uni.S})...)
-			acts = append(acts, freezeMenu(w, o, true)...)
+			on := o
+			on.nftFreeze = true
+			acts = append(acts, freezeMenu(w, on, true)...)
 			acts = append(acts, transferMenuLight(w, o)...)
 			acts = append(acts, deliveries(w)...)
 			if o.thorough {
